@@ -10,6 +10,13 @@
                                      separators of the fall-back parse
   utils.get_nesting_level          : shape check
   ConflictResolver._fix_conflict_merge / DataclassWrapper.merge : which wrapper survives, which are merged, de-duplication
+  FieldWrapper.postprocess         : the if/elif chain (test, action) and the final `return raw_parsed_value`
+  FieldWrapper.default             : the order of the sources (manual / subgroup / parent defaults / field default / factory / ..)
+  DataclassWrapper.defaults        : fresh [] for a top-level wrapper without default; member wrappers seeded from the field
+  FieldWrapper.required            : the sequence of `if test: return value`
+  ConflictResolver.get_conflict, parsing._flatten_wrappers, DataclassWrapper.descendants/destinations, Wrapper.nesting_level :
+                                     the wrappers of a conflict come in registration order; nested destinations follow the parent's
+  field_parsing._parsing_fns / get_parsing_fn : the primitive types parsed with their own constructor
 
 Output: coq/Gen/FactsMerge.v (imports Model.Merge for the chain types, Gen.FactsBool for str2bool, instantiates the model)."""
 from __future__ import annotations
@@ -383,6 +390,234 @@ def _merge(conflicts, dcw):
     return first_sorted, rest_unsorted, dedupes
 
 
+def _getter(tree, cls, name):
+    """The @property getter `name` of class `cls`."""
+    c = [n for n in tree.body if isinstance(n, ast.ClassDef) and n.name == cls]
+    if len(c) != 1:
+        raise Unrecognised(f"class {cls}")
+    f = [n for n in c[0].body if isinstance(n, ast.FunctionDef) and n.name == name
+         and [unparse(d) for d in n.decorator_list] == ["property"]]
+    if len(f) != 1:
+        raise Unrecognised(f"{cls}.{name}: property getter not found exactly once")
+    return f[0]
+
+
+def _postprocess(fn):
+    if [a.arg for a in fn.args.args] != ["self", "raw_parsed_value"]:
+        raise Unrecognised("postprocess signature")
+    body = clean(fn.body)
+    if len(body) != 2 or not isinstance(body[0], ast.If) or unparse(body[1]) != "return raw_parsed_value":
+        raise Unrecognised("postprocess: expected one if/elif chain followed by `return raw_parsed_value`")
+    arms, els = if_chain(body[0])
+    if els:
+        raise Unrecognised("postprocess: the chain has an else arm")
+    tests = {"self.is_enum": "PtIsEnum", "self.is_choice": "PtIsChoice", "self.is_tuple": "PtIsTuple", "self.is_bool": "PtIsBool",
+             "self.is_list": "PtIsList", "self.is_subparser": "PtIsSubparser", "utils.is_optional(self.type)": "PtIsOptional",
+             "self.type not in utils.builtin_types": "PtNotBuiltin"}
+    acts = {
+        ("if isinstance(raw_parsed_value, str):\n    raw_parsed_value = self.type[raw_parsed_value]", "return raw_parsed_value"): "PaEnumLookupIfStr",
+        ("if raw_parsed_value is not None and (not isinstance(raw_parsed_value, tuple)):\n    return tuple(raw_parsed_value)",): "PaTupleIfNotTuple",
+        ("if not isinstance(raw_parsed_value, tuple):\n    return tuple(raw_parsed_value)",): "PaTupleIfNotTuple",
+        ("return raw_parsed_value",): "PaRaw",
+        ("if isinstance(raw_parsed_value, tuple):\n    return list(raw_parsed_value)\nelse:\n    return raw_parsed_value",): "PaListIfTuple",
+        ("item_type = utils.get_args(self.type)[0]",
+         "if utils.is_tuple(item_type) and isinstance(raw_parsed_value, list):\n    return tuple(raw_parsed_value)"): "PaOptionalTuple",
+    }
+    rows = []
+    for test, b in arms:
+        t = tests.get(unparse(test))
+        if t is None:
+            raise Unrecognised(f"postprocess: test {unparse(test)}")
+        key = tuple(_texts(b))
+        if t == "PtIsChoice":
+            if not key or key[0] != "choice_dict = self.choice_dict" or key[-1] != "return raw_parsed_value":
+                raise Unrecognised("postprocess: choice arm")
+            a = "PaChoiceDict"
+        elif t == "PtNotBuiltin":
+            if len(b) != 1 or not isinstance(b[0], ast.Try) or _texts(clean(b[0].body)) != ["return self.type(raw_parsed_value)"]:
+                raise Unrecognised("postprocess: constructor arm")
+            a = "PaTypeCall"
+        else:
+            a = acts.get(key)
+            if a is None:
+                raise Unrecognised(f"postprocess: body of the arm {unparse(test)}: {key}")
+        rows.append(f"({t}, {a})")
+    return rows
+
+
+def _default_sources(fn):
+    body = clean(fn.body)
+    chains = [s for s in body if isinstance(s, ast.If) and unparse(s.test) == "self._default is not None"]
+    if len(chains) != 1:
+        raise Unrecognised("FieldWrapper.default: source chain")
+    arms, els = if_chain(chains[0])
+    if _texts(els) != ["default = None"]:
+        raise Unrecognised("FieldWrapper.default: else arm of the source chain")
+    parent_test = "any((parent_default not in (None, argparse.SUPPRESS) for parent_default in self.parent.defaults))"
+    out = []
+    for test, b in arms:
+        t, tt = unparse(test), [x for x in _texts(b) if x != "single_value = False"]
+        if t == "self._default is not None" and tt == ["default = self._default"]:
+            out.append("SrcManual")
+        elif t == "self.is_subgroup" and tt == ["default = self.subgroup_default"]:
+            out.append("SrcSubgroup")
+        elif t == parent_test:
+            want = ("defaults = [_get_value(parent_default, self.field.name) for parent_default in self.parent.defaults "
+                    "if parent_default not in (None, argparse.SUPPRESS)]")
+            if want not in tt or not any(x.startswith("if len(self.parent.defaults) == 1:\n    default = defaults[0]\nelse:\n    default = defaults")
+                                          for x in tt):
+                raise Unrecognised("FieldWrapper.default: parent-defaults arm")
+            getv = [x for x in b if isinstance(x, ast.FunctionDef) and x.name == "_get_value"]
+            if len(getv) != 1 or _texts(clean(getv[0].body)) != [
+                    "if isinstance(dataclass_default, dict):\n    return dataclass_default.get(name)", "return getattr(dataclass_default, name)"]:
+                raise Unrecognised("FieldWrapper.default: _get_value")
+            out.append("SrcParentDefaults")
+        elif t == "self.field.default is not dataclasses.MISSING" and tt == ["default = self.field.default"]:
+            out.append("SrcFieldDefault")
+        elif t == "self.field.default_factory is not dataclasses.MISSING":
+            ok1 = ["if self._default_factory_result is dataclasses.MISSING:\n    self._default_factory_result = self.field.default_factory()",
+                   "default = self._default_factory_result"]
+            ok2 = ["if self._default is None:\n    self._default = self.field.default_factory()", "default = self._default"]
+            if tt not in (ok1, ok2):
+                raise Unrecognised("FieldWrapper.default: default_factory arm")
+            out.append("SrcFactory")
+        elif t == "self.action == 'store_true'" and tt == ["default = False"]:
+            out.append("SrcStoreTrue")
+        elif t == "self.action == 'store_false'" and tt == ["default = True"]:
+            out.append("SrcStoreFalse")
+        else:
+            raise Unrecognised(f"FieldWrapper.default: source arm {t}: {tt}")
+    return out
+
+
+def _defaults_property(dcw):
+    fn = _getter(dcw, "DataclassWrapper", "defaults")
+    body = clean(fn.body)
+    t = _texts(body)
+    if len(body) != 5 or t[0] != "if self._defaults:\n    return self._defaults" or t[2] != "assert self.parent is not None" \
+            or t[4] != "return self._defaults":
+        raise Unrecognised("DataclassWrapper.defaults: skeleton")
+    if t[1] == "if self._field is None:\n    return []":
+        fresh = "true"
+    elif t[1] == "if self._field is None:\n    return self._defaults":
+        fresh = "false"
+    else:
+        raise Unrecognised("DataclassWrapper.defaults: top-level arm")
+    blk = body[3]
+    if not isinstance(blk, ast.If) or unparse(blk.test) != "self.parent.defaults":
+        raise Unrecognised("DataclassWrapper.defaults: member arm")
+    if _texts(clean(blk.body)) != ["self._defaults = []",
+                                   "for default in self.parent.defaults:\n    if default not in (None, argparse.SUPPRESS):\n"
+                                   "        default = getattr(default, self.name)\n    self._defaults.append(default)"]:
+        raise Unrecognised("DataclassWrapper.defaults: defaults taken from the parent's")
+    if _texts(clean(blk.orelse)) != ["default_field_value = utils.default_value(self._field)",
+                                     "if default_field_value is MISSING:\n    self._defaults = []\nelse:\n"
+                                     "    self._defaults = [default_field_value]"]:
+        raise Unrecognised("DataclassWrapper.defaults: seeding from the member field")
+    init = find_def(dcw, "__init__", "DataclassWrapper")
+    if "self._defaults: list[DataclassT] = [default] if default else []" not in _texts(clean(init.body)):
+        raise Unrecognised("DataclassWrapper.__init__: _defaults")
+    return fresh, "true"
+
+
+def _required(fn):
+    body = clean(fn.body)
+    if not body or not isinstance(body[-1], ast.Return):
+        raise Unrecognised("FieldWrapper.required: last statement")
+    els = const(body[-1].value, bool)
+    tests = {"self._required is not None": "RqExplicit", "self.is_subgroup": "RqSubgroup",
+             "self.action_str.startswith('store_')": "RqStoreAction", "self.is_optional": "RqOptional",
+             "self.parent.required": "RqParentRequired", "self.nargs in {'?', '*'}": "RqNargsOptionalish",
+             "self.nargs == '+'": "RqNargsPlus",
+             "self.default is None and argparse.SUPPRESS not in self.parent.defaults": "RqDefaultNone",
+             "self.is_reused": "RqReused"}
+    rets = {"return True": "RrConst true", "return False": "RrConst false", "return self._required": "RrStored",
+            "return self.subgroup_default in (None, dataclasses.MISSING)": "RrSubgroupDefaultMissing",
+            "return any((v == dataclasses.MISSING for v in self.default))": "RrAnyMissing"}
+    rows = []
+    for s in body[:-1]:
+        if not isinstance(s, ast.If) or s.orelse:
+            raise Unrecognised(f"FieldWrapper.required: statement {unparse(s)[:60]}")
+        t = tests.get(unparse(s.test))
+        b = _texts(clean(s.body))
+        r = rets.get(b[0]) if len(b) == 1 else None
+        if t is None or r is None:
+            raise Unrecognised(f"FieldWrapper.required: `if {unparse(s.test)}: {b}`")
+        rows.append(f"({t}, {r})")
+    return rows, "true" if els else "false"
+
+
+def _conflict_order(conflicts, dcw, repo):
+    g = find_def(conflicts, "get_conflict", "ConflictResolver")
+    want = ["field_wrappers: list[FieldWrapper] = []",
+            "for w in wrappers:\n    if isinstance(w, DataclassWrapper):\n        field_wrappers.extend(w.fields)\n    else:\n"
+            "        field_wrappers.append(w)",
+            "assert len(field_wrappers) == len(set(field_wrappers)), 'duplicates?'",
+            "conflicts: dict[str, list[FieldWrapper]] = defaultdict(list)",
+            "for field_wrapper in field_wrappers:\n    for option_string in field_wrapper.option_strings:\n"
+            "        conflicts[option_string].append(field_wrapper)",
+            "for option_string, field_wrappers in conflicts.items():\n    if len(field_wrappers) > 1:\n"
+            "        return Conflict(option_string, field_wrappers)",
+            "return None"]
+    if _texts(clean(g.body)) != want:
+        raise Unrecognised("get_conflict changed")
+    parsing = parse(repo, "simple_parsing/parsing.py")
+    fl = find_def(parsing, "_flatten_wrappers")
+    if _texts(clean(fl.body))[-1] != "return sum(([w] + list(w.descendants) for w in roots_only), [])":
+        raise Unrecognised("_flatten_wrappers changed")
+    desc = _getter(dcw, "DataclassWrapper", "descendants")
+    if _texts(clean(desc.body)) != ["for child in self._children:\n    yield child\n    yield from child.descendants"]:
+        raise Unrecognised("DataclassWrapper.descendants changed")
+    rr = find_def(conflicts, "resolve_and_flatten", "ConflictResolver")
+    rt = "\n".join(_texts(clean(rr.body)))
+    for need in ("wrappers_flat = _flatten_wrappers(wrappers)", "conflict = self.get_conflict(wrappers_flat)",
+                 "wrappers_flat = self._fix_conflict_merge(conflict, wrappers_flat)"):
+        if need not in rt:
+            raise Unrecognised(f"resolve_and_flatten: lacks `{need}`")
+    dest = _getter(dcw, "DataclassWrapper", "destinations")
+    if _texts(clean(dest.body)) != ["if not self._destinations:\n    if self.parent:\n"
+                                    "        self._destinations = [f'{d}.{self.name}' for d in self.parent.destinations]\n"
+                                    "    else:\n        self._destinations = [self.name]", "return self._destinations"]:
+        raise Unrecognised("DataclassWrapper.destinations changed")
+    wr = parse(repo, "simple_parsing/wrappers/wrapper.py")
+    nl = _getter(wr, "Wrapper", "nesting_level")
+    if _texts(clean(nl.body))[0] != "return len(self.lineage())":
+        raise Unrecognised("Wrapper.nesting_level changed")
+    lin = find_def(wr, "lineage", "Wrapper")
+    if _texts(clean(lin.body)) != ["lineage: list[Wrapper] = []", "parent = self.parent",
+                                   "while parent is not None:\n    lineage.append(parent)\n    parent = parent.parent", "return lineage"]:
+        raise Unrecognised("Wrapper.lineage changed")
+    return "true", "true"
+
+
+def _primitive_parsers(repo, get_arg_options):
+    fp = parse(repo, "simple_parsing/wrappers/field_parsing.py")
+    tab = [n for n in fp.body if isinstance(n, ast.AnnAssign) and unparse(n.target) == "_parsing_fns"]
+    if len(tab) != 1 or not isinstance(tab[0].value, ast.DictComp):
+        raise Unrecognised("field_parsing._parsing_fns")
+    dc = tab[0].value
+    if unparse(dc.key) != "t" or unparse(dc.value) != "t" or len(dc.generators) != 1 or unparse(dc.generators[0].target) != "t" \
+            or dc.generators[0].ifs or not isinstance(dc.generators[0].iter, (ast.List, ast.Tuple)):
+        raise Unrecognised("field_parsing._parsing_fns comprehension")
+    names = []
+    for e in dc.generators[0].iter.elts:
+        if not isinstance(e, ast.Name):
+            raise Unrecognised("field_parsing._parsing_fns entry")
+        names.append(e.id)
+    later = [unparse(n) for n in fp.body if isinstance(n, ast.Assign) and unparse(n.targets[0]).startswith("_parsing_fns[")]
+    if later != ["_parsing_fns[bool] = str2bool"]:
+        raise Unrecognised(f"field_parsing: later assignments into _parsing_fns: {later}")
+    g = find_def(fp, "get_parsing_fn")
+    first = clean(g.body)[0]
+    if not isinstance(first, ast.If) or unparse(first.test) != "t in _parsing_fns" or _texts(clean(first.body)) != ["return _parsing_fns[t]"]:
+        raise Unrecognised("get_parsing_fn: table lookup is no longer first")
+    chain = [s for s in clean(get_arg_options.body) if isinstance(s, ast.If) and unparse(s.test) == "self.is_choice"]
+    _, els = if_chain(chain[0])
+    if "_arg_options['type'] = self.custom_arg_options.get('type', get_parsing_fn(self.type))" not in _texts(els):
+        raise Unrecognised("get_arg_options: plain arm no longer uses get_parsing_fn(self.type)")
+    return names
+
+
 def _cchar(s):
     return '"' + ('""' if s == '"' else s) + '"%char'
 
@@ -396,14 +631,35 @@ def emit(repo: str) -> str:
     if len(cls) != 1:
         raise Unrecognised("FieldWrapper")
     guards, conds, chain, els = _duplicate(find_def(fw, "duplicate_if_needed", "FieldWrapper"))
-    pk = _packaging(find_def(fw, "default", "FieldWrapper"))
-    req, opt = _nargs(find_def(fw, "get_arg_options", "FieldWrapper"))
+    dflt = _getter(fw, "FieldWrapper", "default")
+    pk = _packaging(dflt)
+    gao = find_def(fw, "get_arg_options", "FieldWrapper")
+    req, opt = _nargs(gao)
     _call(find_def(fw, "__call__", "FieldWrapper"))
     _destinations(cls[0].body)
     wrapped, seps, dsep = _parse_container(utils)
     first_sorted, rest_unsorted, dedupes = _merge(conflicts, dcw)
-    inst = ("str2bool_gen DUP_CHAIN DUP_ELSE SC_GUARDS SC_CONDS PK_CHAIN NARGS_REQUIRED NARGS_OPTIONAL BARE_LITERAL_WRAPPED "
-            "FALLBACK_SEPS FALLBACK_DEFAULT_SEP MERGE_FIRST_SORTED MERGE_REST_UNSORTED MERGE_DEDUPES")
+    post = _postprocess(find_def(fw, "postprocess", "FieldWrapper"))
+    sources = _default_sources(dflt)
+    top_fresh, nested_seeded = _defaults_property(dcw)
+    rq, rq_else = _required(_getter(fw, "FieldWrapper", "required"))
+    disc, nested_dests = _conflict_order(conflicts, dcw, repo)
+    prims = _primitive_parsers(repo, gao)
+    # section variables of Model/Merge.v in declaration order, and which of them each definition depends on
+    order = ["str2bool_gen", "DUP_CHAIN", "DUP_ELSE", "SC_GUARDS", "SC_CONDS", "PK_CHAIN", "NARGS_REQUIRED", "NARGS_OPTIONAL",
+             "BARE_LITERAL_WRAPPED", "FALLBACK_SEPS", "FALLBACK_DEFAULT_SEP", "MERGE_FIRST_SORTED", "MERGE_REST_UNSORTED",
+             "MERGE_DEDUPES", "POST_CHAIN", "DEFAULT_SOURCES", "DEFAULTS_TOP_FRESH", "DEFAULTS_NESTED_SEEDED", "REQ_CHAIN", "REQ_ELSE",
+             "CONFLICT_DISCOVERY_ORDER", "NESTED_DESTS_FROM_PARENT", "PRIMITIVE_PARSERS"]
+    conv = {"str2bool_gen", "BARE_LITERAL_WRAPPED", "FALLBACK_SEPS", "FALLBACK_DEFAULT_SEP", "PRIMITIVE_PARSERS"}
+    dup = {"DUP_CHAIN", "DUP_ELSE", "SC_GUARDS", "SC_CONDS"}
+    coll = conv | {"NARGS_REQUIRED", "NARGS_OPTIONAL", "REQ_CHAIN", "REQ_ELSE"}
+    dist = coll | dup | {"POST_CHAIN"}
+    mrg = {"MERGE_FIRST_SORTED", "MERGE_REST_UNSORTED", "MERGE_DEDUPES"}
+    dobj = {"DEFAULT_SOURCES", "DEFAULTS_TOP_FRESH", "DEFAULTS_NESTED_SEEDED"}
+
+    def inst(name, deps):
+        return f"Definition {name}_gen := {name} {' '.join(x for x in order if x in deps)}.\n"
+
     return (
         "From SPV Require Import Base.Str Model.Merge Gen.FactsBool.\nOpen Scope string_scope.\n"
         f"Definition DUP_CHAIN : list (len_test * dup_act) := [{'; '.join(chain)}].\n"
@@ -419,14 +675,18 @@ def emit(repo: str) -> str:
         f"Definition MERGE_FIRST_SORTED : bool := {first_sorted}.\n"
         f"Definition MERGE_REST_UNSORTED : bool := {rest_unsorted}.\n"
         f"Definition MERGE_DEDUPES : bool := {dedupes}.\n"
+        f"Definition POST_CHAIN : list (post_test * post_act) := [{'; '.join(post)}].\n"
+        f"Definition DEFAULT_SOURCES : list dsource := [{'; '.join(sources)}].\n"
+        f"Definition DEFAULTS_TOP_FRESH : bool := {top_fresh}.\n"
+        f"Definition DEFAULTS_NESTED_SEEDED : bool := {nested_seeded}.\n"
+        f"Definition REQ_CHAIN : list (req_test * req_ret) := [{'; '.join(rq)}].\n"
+        f"Definition REQ_ELSE : bool := {rq_else}.\n"
+        f"Definition CONFLICT_DISCOVERY_ORDER : bool := {disc}.\n"
+        f"Definition NESTED_DESTS_FROM_PARENT : bool := {nested_dests}.\n"
+        f"Definition PRIMITIVE_PARSERS : list string := [{'; '.join(chr(34) + n + chr(34) for n in prims)}].\n"
         "(* the model instantiated with the regenerated facts *)\n"
-        f"Definition convert_gen := convert str2bool_gen BARE_LITERAL_WRAPPED FALLBACK_SEPS FALLBACK_DEFAULT_SEP.\n"
-        f"Definition package_default_gen := package_default PK_CHAIN.\n"
-        f"Definition duplicate_gen := duplicate DUP_CHAIN DUP_ELSE SC_GUARDS SC_CONDS.\n"
-        f"Definition collect_gen := collect str2bool_gen NARGS_REQUIRED NARGS_OPTIONAL BARE_LITERAL_WRAPPED FALLBACK_SEPS FALLBACK_DEFAULT_SEP.\n"
-        f"Definition distribute_gen := distribute str2bool_gen DUP_CHAIN DUP_ELSE SC_GUARDS SC_CONDS NARGS_REQUIRED NARGS_OPTIONAL "
-        "BARE_LITERAL_WRAPPED FALLBACK_SEPS FALLBACK_DEFAULT_SEP.\n"
-        f"Definition merge_dests_gen := merge_dests MERGE_DEDUPES.\n"
-        f"Definition fix_conflict_merge_gen := fix_conflict_merge MERGE_FIRST_SORTED MERGE_REST_UNSORTED MERGE_DEDUPES.\n"
-        f"Definition run_gen := run {inst}.\n"
+        + inst("convert", conv) + inst("package_default", {"PK_CHAIN"}) + inst("duplicate", dup)
+        + inst("postprocess", {"POST_CHAIN"}) + inst("collect", coll) + inst("distribute", dist)
+        + inst("merge_dests", {"MERGE_DEDUPES"}) + inst("fix_conflict_merge", mrg) + inst("default_object", dobj)
+        + inst("run", set(order))
     )
